@@ -3,6 +3,7 @@ open RawPanelVerif.C18
 #print axioms tile_size_ok
 #print axioms tile_active_ok
 #print axioms tile_colours_ok
+#print axioms tile_inversion_ok
 #print axioms draws_touch
 #print axioms clip_sub_active
 #print axioms box_centred_within_one
